@@ -619,6 +619,11 @@ def zoo(tier='quick'):
         return sec
     p.decl('BB.WISH', make_wish, needs=('BB', 'AA.GOOD', 'AA.LAB'), group='BB')
     Z.append(p)
+    # the same flow (source, amount variable, target) registered twice - two instalments per period - across zones and inside one country
+    Z.append(two_zone('xz_gift_twice', {}, {}, [G('AA.HH', 'BB.HH'), G('AA.HH', 'BB.HH'), G('BB.HH', 'AA.HH', name='BACK'), G('AA.HH', 'BB.HH')]))
+    p = single('sim_gift_twice')
+    gift(p, 'CA.HH', 'CA.BUS', name='TIP'); gift(p, 'CA.HH', 'CA.BUS', name='TIP')
+    Z.append(p)
     Z.append(two_zone('xz_gold_mixed', dict(gov='gold_gov', mm=True), dict(gov='cons', caps=True, firm='fm1'),
                       [G('AA.HH', 'BB.CAP'), G('BB.HH', 'AA.HH')]))
     # flows whose source / target are firms and governments (not only households), within and across zones
